@@ -119,6 +119,66 @@ def iteF : Nat → Store → Nat → Nat → Nat → Store × Nat
     let m := mkNode bot.1 mv bot.2 top.2
     ({ m.1 with iteC := m.1.iteC.insert (i, t, e) m.2 }, m.2)
 
+/-- insertion into the ite memo of a store that is taken apart first (in place when compiled) -/
+def Store.insIte (s : Store) (k : Nat × Nat × Nat) (r : Nat) : Store :=
+  match s with
+  | ⟨nodes, uniq, resC, iteC⟩ => ⟨nodes, uniq, resC, iteC.insert k r⟩
+
+theorem Store.insIte_eq (s : Store) (k : Nat × Nat × Nat) (r : Nat) :
+    s.insIte k r = { s with iteC := s.iteC.insert k r } := rfl
+
+/-- `iteF` with every intermediate pair taken apart at once (single reference to the store in the
+compiled code; `@[csimp]`-substituted, theorems speak about `iteF`) -/
+def iteL : Nat → Store → Nat → Nat → Nat → Store × Nat
+  | 0, s, i, _, _ => (s, i)
+  | fuel+1, s, i, t, e =>
+    if i = 1 then (s, t) else if i = 0 then (s, e) else if t = e then (s, t)
+    else if t = 1 ∧ e = 0 then (s, i) else
+    match s.iteC[(i, t, e)]? with
+    | some r => (s, r)
+    | none =>
+    let mv := minVar s i t e
+    match restrictL (i+1) s i mv true with
+    | (s1, a1) =>
+    match restrictL (t+1) s1 t mv true with
+    | (s2, a2) =>
+    match restrictL (e+1) s2 e mv true with
+    | (s3, a3) =>
+    match restrictL (i+1) s3 i mv false with
+    | (s4, a4) =>
+    match restrictL (t+1) s4 t mv false with
+    | (s5, a5) =>
+    match restrictL (e+1) s5 e mv false with
+    | (s6, a6) =>
+    match iteL fuel s6 a1 a2 a3 with
+    | (s7, top) =>
+    match iteL fuel s7 a4 a5 a6 with
+    | (s8, bot) =>
+    match mkNodeL s8 mv bot top with
+    | (s9, r) => (s9.insIte (i, t, e) r, r)
+
+theorem iteF_eq_iteL : ∀ (fuel : Nat) (s : Store) (i t e : Nat), iteF fuel s i t e = iteL fuel s i t e := by
+  intro fuel
+  induction fuel with
+  | zero => intros; rfl
+  | succ f ih =>
+    intro s i t e
+    unfold iteF iteL
+    split
+    · rfl
+    · split
+      · rfl
+      · split
+        · rfl
+        · split
+          · rfl
+          · split
+            · rfl
+            · simp only [ih, restrictF_eq_restrictL, mkNode_eq_mkNodeL, Store.insIte_eq]
+
+@[csimp] theorem iteF_eq_iteL' : @iteF = @iteL := by
+  funext fuel s i t e; exact iteF_eq_iteL fuel s i t e
+
 theorem WF_insert_ite (s : Store) (w : WF s) (i t e r : Nat)
     (hi : i < s.nodes.size) (ht : t < s.nodes.size) (he : e < s.nodes.size) (hr : r < s.nodes.size)
     (hmv : minVar s i t e ≤ topVar s r)
